@@ -30,7 +30,7 @@ BFA = KRec('BITFrameArray', channel_names=KView(Int), _temporary_frames=KView(KV
 TIF = KRec('TifMarker', tell=Int, type=Int, prev=Int, next=Int)
 RANGE = KRec('LogPassRange', depth_from=Real, depth_to=Real, spacing=Real, unknown_a=Real, unknown_b=Real)
 
-TRUSTED = ['numpy array storage in LogPass.FrameChannel (init_array, item assignment): complete() is covered by the bounded stand-in only']
+TRUSTED = ['numpy array storage in LogPass.FrameChannel (init_array, item assignment) is abstracted to a value list by assumed contracts']
 
 
 def register(reg):
@@ -38,6 +38,7 @@ def register(reg):
     c07.register_bit(reg, verify=True)
     reg.add_spec_source(SPEC)
     register_tif_walk(reg)
+    register_complete(reg)
     C = 'len(self.channel_names)'
     M = '(len(block) // (4 * %s))' % C
     reg.add(Contract(BIT, 'BITFrameArray.len_channels', inline=True))
@@ -80,6 +81,71 @@ def register(reg):
                      inline_at_calls=True, canaries=['result'], crosscheck=False))
     reg.add(Contract(BIT, 'LogPassRange.is_increasing', {'self': RANGE}, returns=Bool, ensures=['result == (self.depth_to > self.depth_from)'],
                      canaries=['result'], crosscheck=False))
+
+
+def register_complete(reg):
+    """BITFrameArray.complete(): the frame array it builds has the computed X axis first - frame_count values that start at the
+    header's start depth and move by the header's spacing, upwards or downwards according to the header's depth range - and
+    then one channel per name, in header order, holding exactly the values collected from the data blocks.  numpy storage is
+    abstracted: a FrameChannel is (ident, vals), the LogPass.FrameChannel / FrameArray methods used are assumed contracts."""
+    LP = 'src/TotalDepth/common/LogPass.py'
+    FCH = KRec('FrameChannel', ident=Str, vals=KView(Real))
+    FAR = KRec('FrameArray', channels=KView(FCH))
+    reg.add(Contract(LP, 'FrameChannel.__init__', {'self': KRec('FrameChannel'), 'ident': Str, 'long_name': Untracked, 'units': Untracked,
+                                                   'shape': Untracked, 'np_dtype': Untracked},
+                     modifies=[('self.ident', Str), ('self.vals', KView(Real))], ensures=['self.ident == ident', 'len(self.vals) == 0'], trusted=True,
+                     note='abstract channel: ident and a value list'), verify=False)
+    reg.add(Contract(LP, 'FrameChannel.init_array', {'self': FCH, 'number_of_frames': Int}, requires=['number_of_frames >= 0'],
+                     modifies=['self.vals'], ensures=['len(self.vals) == number_of_frames'], trusted=True, note='numpy allocation'), verify=False)
+    reg.add(Contract(LP, 'FrameChannel.__setitem__', {'self': FCH, 'key': Int, 'value': Real}, requires=['0 <= key', 'key < len(self.vals)'],
+                     modifies=['self.vals'], trusted=True, note='numpy item assignment (float64 storage of the value: real model)',
+                     ensures=['len(self.vals) == len(old(self.vals))', 'self.vals[key] == value',
+                              'forall(0, len(self.vals), lambda j: implies(j != key, self.vals[j] == old(self.vals)[j]))']), verify=False)
+    reg.add(Contract(LP, 'FrameArray.__init__', {'self': KRec('FrameArray'), 'ident': Untracked, 'description': Untracked},
+                     modifies=[('self.channels', KView(FCH))], ensures=['len(self.channels) == 0'], trusted=True, note='empty frame array'), verify=False)
+    reg.add(Contract(LP, 'FrameArray.append', {'self': FAR, 'channel': FCH}, modifies=['self.channels'], may_raise={'ExceptionFrameArray': 'True'}, trusted=True,
+                     note='appends the channel (refuses a duplicate ident)',
+                     ensures=['len(self.channels) == len(old(self.channels)) + 1',
+                              'forall(0, len(old(self.channels)), lambda j: self.channels[j] == old(self.channels)[j])',
+                              'self.channels[len(self.channels) - 1].ident == channel.ident',
+                              'len(self.channels[len(self.channels) - 1].vals) == len(channel.vals)',
+                              'forall(0, len(channel.vals), lambda j: self.channels[len(self.channels) - 1].vals[j] == channel.vals[j])']), verify=False)
+    BFC = KRec('BITFrameArray', ident=Int, description=Int, channel_names=KView(Str), _temporary_frames=KView(KView(Real)), frame_count=Int,
+               bit_log_pass_range=RANGE, frame_array=NoneK)
+    C = 'len(self.channel_names)'
+    XV = '(old(self.bit_log_pass_range.depth_from) + %s * self.bit_log_pass_range.spacing if self.bit_log_pass_range.depth_to > self.bit_log_pass_range.depth_from ' \
+         'else old(self.bit_log_pass_range.depth_from) - %s * self.bit_log_pass_range.spacing)'
+    reg.add(Contract(
+        BIT, 'BITFrameArray.complete', {'self': BFC},
+        requires=[C + ' >= 1', C + ' == len(self._temporary_frames)', 'self.frame_count >= 0',
+                  'forall(0, %s, lambda c: len(self._temporary_frames[c]) >= 1)' % C],
+        modifies=[('self.frame_array', FAR), 'self._temporary_frames'], may_raise={'ExceptionFrameArray': 'True'},
+        ensures=['len(self.frame_array.channels) == 1 + ' + C,
+                 # the computed X axis: start depth, then the header's spacing towards the stop depth
+                 'self.frame_array.channels[0].ident == "X   "', 'len(self.frame_array.channels[0].vals) == self.frame_count',
+                 'forall(0, self.frame_count, lambda i: self.frame_array.channels[0].vals[i] == %s)' % (XV % ('i', 'i')),
+                 # one channel per name in header order, holding the collected values
+                 'forall(0, %s, lambda c: self.frame_array.channels[c + 1].ident == self.channel_names[c] and '
+                 'len(self.frame_array.channels[c + 1].vals) == len(old(self._temporary_frames)[c]))' % C,
+                 'forall_n(lambda c, i: implies(0 <= c and c < %s and 0 <= i and i < len(old(self._temporary_frames)[c]), '
+                 'self.frame_array.channels[c + 1].vals[i] == old(self._temporary_frames)[c][i]))' % C,
+                 'len(self._temporary_frames) == 0'],
+        loops=[Loop('for i in range(self.frame_count)', index='k', invariants=[
+                    'len(x_channel.vals) == self.frame_count', 'x_channel.ident == "X   "', 'x_value == %s' % (XV % ('k', 'k')),
+                    'forall(0, k, lambda j: x_channel.vals[j] == %s)' % (XV % ('j', 'j'))]),
+               Loop('for (c, channel_name) in enumerate(self.channel_names)', index='kc', invariants=[
+                    'len(self.frame_array.channels) == 1 + kc',
+                    'self.frame_array.channels[0].ident == "X   "', 'len(self.frame_array.channels[0].vals) == self.frame_count',
+                    'forall(0, self.frame_count, lambda i: self.frame_array.channels[0].vals[i] == %s)' % (XV % ('i', 'i')),
+                    'forall(0, kc, lambda c: self.frame_array.channels[c + 1].ident == self.channel_names[c] and '
+                    'len(self.frame_array.channels[c + 1].vals) == len(self._temporary_frames[c]))',
+                    'forall_n(lambda c, i: implies(0 <= c and c < kc and 0 <= i and i < len(self._temporary_frames[c]), '
+                    'self.frame_array.channels[c + 1].vals[i] == self._temporary_frames[c][i]))']),
+               Loop('for i in range(len(self._temporary_frames[c]))', index='ki', invariants=[
+                    'len(frame_channel.vals) == len(self._temporary_frames[c])', 'frame_channel.ident == channel_name',
+                    'forall(0, ki, lambda j: frame_channel.vals[j] == self._temporary_frames[c][j])']),
+               Loop('for data in self._temporary_frames', index='kd', invariants=[])],
+        canaries=['len(self.frame_array.channels) == 1'], crosscheck=False, timeout=30))
 
 
 SPEC_TIF = '''
